@@ -32,6 +32,7 @@ def main():
         if getattr(fr, "partial_error", None): print("   PARTIAL (undecided):", fr.partial_error)
         if getattr(fr, "unused_anchors", None): print("   UNUSED ANCHORS:", fr.unused_anchors)
         print(f"   vcgen {time.time()-t0:.2f}s, {len(fr.order)} obligations, dropped {len(fr.dropped)}")
+        eng.current_reveals = tuple(c.reveals)
         params = {n: (v, fr.init_state.heap) for n, v in fr.init_state.env.items() if not n.startswith("$")}
         for name in fr.order:
             if only and only not in name:
